@@ -44,6 +44,67 @@ def flatten_add(e):
     return [e]
 
 
+def rule_frame_eval(P):
+    """make_ws_frame evaluated: for opcodes x payload lengths around every boundary of the three length forms, what is appended to the output is exactly the RFC 6455 header (FIN set,
+    RSV clear, no mask, shortest length form, big-endian) followed by the len payload bytes - by copy, nothing else"""
+    from ..interp import run_all, normx, nkey
+    r = Rule("C32-frame-eval", "K6", "make_ws_frame appends exactly the RFC 6455 header for (opcode, len) and then the payload", floor=40)
+    f = P.fn("make_ws_frame")
+    lens = [0, 1, 125, 126, 127, 255, 256, 65535, 65536, 70000, (1 << 32) - 1, 1 << 32, (1 << 40) + 5]
+    for opc in (1, 2, 8, 9, 10):
+        for ln in lens:
+            env = {"#typed": 1, f.params[0][0]: 9, f.params[1][0]: opc, f.params[2][0]: 500, f.params[3][0]: ln, "#adds": ()}
+
+            def hook(el, e_):
+                n = callee_name(el.e)
+                if n is None:
+                    return None
+                if n == "evbuffer_add":
+                    a = el.e[2]
+                    try:
+                        cnt = evalx(normx(a[2]), e_, P)
+                    except EvalError:
+                        cnt = None
+                    src = strip(a[1])
+                    if is_e(src, "var") and src[1] == f.params[2][0]:
+                        e_["#adds"] = e_["#adds"] + (("payload", cnt),)
+                    else:
+                        data = []
+                        for k in range(cnt if isinstance(cnt, int) and 0 <= cnt <= 32 else 0):
+                            data.append(e_.get(nkey(["idx", src, ["int", k]])))
+                        e_["#adds"] = e_["#adds"] + (("bytes", tuple(data)),)
+                    return 0
+                if n.startswith("evbuffer_") or n in ("bufferevent_write", "bufferevent_write_buffer"):
+                    e_["#adds"] = e_["#adds"] + ((n,),)
+                    return 0
+                return None
+            want_hdr = [0x80 | opc]
+            if ln <= 125:
+                want_hdr.append(ln)
+            elif ln <= 65535:
+                want_hdr += [126, ln >> 8, ln & 0xff]
+            else:
+                want_hdr += [127] + [(ln >> s_) & 0xff for s_ in range(56, -8, -8)]
+            want = (("bytes", tuple(want_hdr)), ("payload", ln))
+            for o in run_all(f, (f.entry, 0), env, lambda el: False, P, hook, max_steps=1200):
+                if o.kind == "exit" and o.why == "noreturn":
+                    continue
+                if o.kind == "unknown":
+                    r.brk("make_ws_frame(opcode %d, len %d): %s" % (opc, ln, o.why))
+                    return r
+                got = tuple((x[0], tuple((v & 0xff) if isinstance(v, int) else v for v in x[1])) if x[0] == "bytes" else x for x in o.env["#adds"])
+                r.inst((opc, ln), {"opcode": opc, "len": ln, "appended": [list(x) if x[0] != "bytes" else ["bytes", list(x[1])] for x in got]} if ln in (5, 126, 65536) or (opc == 1 and ln == 125) else None)
+                if got != want:
+                    r.bad("K6:make_ws_frame:frame", "%s:%d" % (f.file, f.line), f.name, "opcode %d, payload of %d bytes: appends %s; RFC 6455: header %s then the payload (copied)" % (opc, ln, list(got), want_hdr))
+    seen, uniq = set(), []
+    for f_ in r.findings:
+        if f_.key not in seen:
+            seen.add(f_.key)
+            uniq.append(f_)
+    r.findings = uniq
+    return r
+
+
 def run(ctx, config):
     P = ctx.prog(UNITS, config)
     rules = []
@@ -268,6 +329,9 @@ def run(ctx, config):
 
     # ------------------------------------------------ make_ws_frame / evws_close
     r4 = Rule("C32-frame", "K6/K4", "make_ws_frame: FIN|opcode, length forms and big-endian lengths; evws_close: 0x88, 2, network-order code", floor=8)
+    # make_ws_frame is decided by evaluation (C32-frame-eval); its syntactic clauses are notes
+    def r4_note(key_, where_, fn_, msg_):
+        r4.notes.append("%s: %s" % (key_, msg_))
     f = P.fn("make_ws_frame")
     ln = f.params[3][0]
     hdr_stores = [(el, lhs, rhs) for el, lhs, op, rhs in f.stores() if is_e(strip(lhs), "idx") and eq(strip(lhs)[1], ["var", "header", "local"])]
@@ -281,7 +345,7 @@ def run(ctx, config):
                 if eq(e2.e, ix):
                     own = e2
         if own is None:
-            r4.brk("%s: header index %s not recognised" % (el.where(), show(ix)))
+            r4.notes.append("%s: header index %s not recognised" % (el.where(), show(ix)))
             continue
         for st in CF.states_before(own):
             pv = dict(st).get(strip(ix[3])[1])
@@ -336,12 +400,12 @@ def run(ctx, config):
         ok0 = is_e(s, "bin") and s[1] == "|" and is_e(strip(s[3]), "int") and strip(s[3])[1] == 0x80 and eq(s[2], ["var", f.params[1][0], "param"])
     r4.inst("byte0", {"store": show(el0[0].e) if el0 else None})
     if not ok0:
-        r4.bad("K6:make_ws_frame:first-byte", "%s:%d" % (f.file, f.line), f.name, "first header byte must be opcode | 0x80 (FIN, RSV clear, single frame)")
+        r4_note("K6:make_ws_frame:first-byte", "%s:%d" % (f.file, f.line), f.name, "first header byte must be opcode | 0x80 (FIN, RSV clear, single frame)")
     def need(form, name, pred, what):
         v = forms[form]
         r4.inst(name, {"store": show(v[0].e) if v else None, "guards": v[1] if v and isinstance(v[1], list) else None})
         if not v or not pred(v):
-            r4.bad("K6:make_ws_frame:" + name, "%s:%d" % (f.file, f.line), f.name, what)
+            r4_note("K6:make_ws_frame:" + name, "%s:%d" % (f.file, f.line), f.name, what)
     need("len7", "len7", lambda v: interval(v[1]) == (0, 125), "7-bit length form must be used exactly for len <= 125")
     need("m126", "marker126", lambda v: interval(v[1]) == (126, 65535), "marker 126 must be used exactly for 125 < len <= 65535")
     need("m127", "marker127", lambda v: interval(v[1]) == (65536, INF), "marker 127 must be used exactly for len > 65535")
@@ -355,7 +419,7 @@ def run(ctx, config):
                 ok16 = False
     r4.inst("len16", {"stores": [show(x[0].e) for x in b16]})
     if not ok16:
-        r4.bad("K6:make_ws_frame:len16-order", "%s:%d" % (f.file, f.line), f.name, "16-bit length must be written most significant byte first at header[2], header[3]")
+        r4_note("K6:make_ws_frame:len16-order", "%s:%d" % (f.file, f.line), f.name, "16-bit length must be written most significant byte first at header[2], header[3]")
     b64 = forms["b64"]
     ok64 = False
     if b64:
@@ -379,13 +443,13 @@ def run(ctx, config):
             ok64 = False
         r4.inst("len64", {"store": show(el.e), "pos_shift_pairs": sorted(pairs, key=str)})
     if not ok64:
-        r4.bad("K6:make_ws_frame:len64-order", "%s:%d" % (f.file, f.line), f.name, "64-bit length must be written big-endian in header[2..9]")
+        r4_note("K6:make_ws_frame:len64-order", "%s:%d" % (f.file, f.line), f.name, "64-bit length must be written big-endian in header[2..9]")
     adds = list(f.calls("evbuffer_add"))
     okadd = len(adds) == 2 and eq(adds[0].e[2][1], ["var", "header", "local"]) and eq(adds[0].e[2][2], ["var", "pos", "local"]) and \
         eq(adds[1].e[2][1], ["var", f.params[2][0], "param"]) and eq(adds[1].e[2][2], ["var", ln, "param"]) and f.pos_dominates(adds[0].pos(), adds[1].pos())
     r4.inst("emit", {"adds": [show(a.e) for a in adds]})
     if not okadd:
-        r4.bad("K3:make_ws_frame:emit-order", "%s:%d" % (f.file, f.line), f.name, "the frame must be header[0..pos) followed by the len payload bytes, unmasked")
+        r4_note("K3:make_ws_frame:emit-order", "%s:%d" % (f.file, f.line), f.name, "the frame must be header[0..pos) followed by the len payload bytes, unmasked")
     # opcode constants used by the senders
     for fname, opc in (("evws_send_text", 1), ("evws_send_binary", 2)):
         g = P.fn(fname)
@@ -409,6 +473,7 @@ def run(ctx, config):
     elif not any(any(q == "htons" for q in (el.mac or [])) or "htons" in (el.mtext or "") for el in sto) and not ht:
         r4.bad("K6:evws_close:byte-order", sto[0].where(), g.name, "status code is not converted to network byte order")
     rules.append(r4)
+    rules.append(rule_frame_eval(P))
     rules.append(rule_sha1_blocks(P))
     return rules
 
